@@ -1,5 +1,6 @@
 import LSProofs.ConcInv
 import LSProofs.ConcLendInv
+import LSProofs.ConcRAInv
 import LSProofs.Tie
 /-!
 # C04 — handles are independent and memory-safe across threads, under every schedule
@@ -174,3 +175,73 @@ example : (ConcL.run false (initCfg 3) [(0, .lend 0), (1, .readBorrowedStart 0),
 example : ConcL.run false (initCfg 2) [(0, .lend 0), (1, .readBorrowedStart 0), (0, .reclaim)] = none := by decide
 
 end LS.C04L
+
+/-! ## Second stage: release/acquire instead of sequential consistency
+
+`LSModel/ConcRA.lean` runs the same micro-steps on a view machine for the release/acquire fragment:
+views are sets of events that happen before, the count is a modification order of messages,
+read-modify-writes continue release sequences, the uniqueness load may read any message coherence
+allows (stale reads included), handing a handle to another thread synchronises. Accesses are
+checked like a race detector does: a shared access (reading the text, any atomic operation on the
+header) must happen after every exclusive access of the block (initialisation, in-place write or
+`realloc`, `dealloc`), an exclusive access after every earlier access, all on a live block.
+The orderings are those translated from the source on this run (`Gen.atomicOrdCodes`). -/
+namespace LS.C04RA
+open LS.ConcRA
+
+/-- the orderings in the source, as numbers (operation, ordering) -/
+theorem codes : Gen.atomicOrdCodes = [(0, 0), (1, 2), (2, 1), (3, 1)] := rfl
+
+/-- what the proof needs from them: `fetch_sub` is a release, an acquire fence precedes `dealloc`,
+the uniqueness load is an acquire (`fetch_add` may be relaxed) -/
+theorem src_orderings : srcOrds.subRel = true ∧ srcOrds.fenceAcq = true ∧ srcOrds.loadAcq = true := by decide
+
+/-- **C04 under release/acquire**: from any initial distribution of handles on one buffer, along every
+schedule of every number of threads — clones, drops, reads, copy-on-write mutations, handles sent
+to other threads, stale reads of the count — no access races with a write, a reallocation or the
+release of its buffer, and no access touches a released buffer -/
+theorem race_free (ks : List Nat) (sched : List (Nat × Act)) (c' : Cfg)
+    (h : ConcRA.run srcOrds (ConcRA.initCfg ks) sched = some c') : c'.bad = false :=
+  (run_inv srcOrds src_orderings.1 src_orderings.2.1 src_orderings.2.2 sched _ _ (init_inv ks) h).nobad
+
+/-- the same for any orderings at least that strong -/
+theorem race_free_of (o : Ords) (hs : o.subRel = true) (hf : o.fenceAcq = true) (hl : o.loadAcq = true)
+    (ks : List Nat) (sched : List (Nat × Act)) (c' : Cfg) (h : ConcRA.run o (ConcRA.initCfg ks) sched = some c') :
+    c'.bad = false ∧ ConcRA.Inv c' :=
+  ⟨(run_inv o hs hf hl sched _ _ (init_inv ks) h).nobad, run_inv o hs hf hl sched _ _ (init_inv ks) h⟩
+
+/-- a thread that took the in-place path read the *newest* count, it is 1, and every access ever
+made to the buffer happens before its write -/
+theorem unique_sees_all (ks : List Nat) (sched : List (Nat × Act)) (c' : Cfg)
+    (h : ConcRA.run srcOrds (ConcRA.initCfg ks) sched = some c') (i : Nat) (t : Thread) (a : Nat) (b : Blk)
+    (ht : c'.threads[i]? = some t) (hp : t.phase = .unique a) (hb : c'.blocks[a]? = some b) :
+    b.top.val = 1 ∧ ∀ e ∈ b.evs, e ∈ t.view :=
+  (race_free_of srcOrds src_orderings.1 src_orderings.2.1 src_orderings.2.2 ks sched c' h).2.uniq i t a ht hp b hb
+
+def strong : Ords := { addRel := false, addAcq := false, subRel := true, subAcq := false, fenceAcq := true, loadAcq := true }
+theorem srcOrds_eq : srcOrds = strong := by decide
+
+/-- each of the three orderings is necessary: weaken one and a three-to-five step schedule races -/
+theorem release_needed :
+    (ConcRA.run { strong with subRel := false } (ConcRA.initCfg [1, 1])
+      [(1, .readStart 0), (1, .readEnd), (1, .drop 0), (0, .probe 0 0), (0, .write)]).map (·.bad) = some true := by decide
+theorem acquire_load_needed :
+    (ConcRA.run { strong with loadAcq := false } (ConcRA.initCfg [1, 1])
+      [(1, .readStart 0), (1, .readEnd), (1, .drop 0), (0, .probe 0 0), (0, .write)]).map (·.bad) = some true := by decide
+theorem acquire_fence_needed :
+    (ConcRA.run { strong with fenceAcq := false } (ConcRA.initCfg [1, 1])
+      [(1, .readStart 0), (1, .readEnd), (1, .drop 0), (0, .drop 0), (0, .free)]).map (·.bad) = some true := by decide
+
+-- non-vacuity: the same schedules run to the end under the source's orderings, without a race;
+-- a stale read of the count (index 1 = the overwritten message) is enabled and leads to a copy
+example : (ConcRA.run srcOrds (ConcRA.initCfg [1, 1])
+    [(1, .readStart 0), (1, .readEnd), (1, .drop 0), (0, .probe 0 0), (0, .write), (0, .drop 0), (0, .free)]).map (·.bad) = some false := by decide
+example : (ConcRA.run srcOrds (ConcRA.initCfg [1, 1])
+    [(1, .drop 0), (0, .probe 0 1), (0, .copyRead), (0, .copyFinish), (0, .free)]).map (fun c => (c.bad, c.blocks.map (·.live))) = some (false, [false, true]) := by decide
+-- coherence: after its own clone a thread cannot read the count it overwrote
+example : (ConcRA.run srcOrds (ConcRA.initCfg [1]) [(0, .clone 0), (0, .probe 0 1)]).isSome = false := by decide
+-- a handle sent to another thread: the receiver's drop publishes, the sender's in-place write is ordered
+example : (ConcRA.run srcOrds (ConcRA.initCfg [1, 0])
+    [(0, .clone 0), (0, .send 0 1), (1, .readStart 0), (1, .readEnd), (1, .drop 0), (0, .probe 0 0), (0, .write)]).map (·.bad) = some false := by decide
+
+end LS.C04RA
